@@ -103,6 +103,9 @@ def run_gloo(cfg, timeout=120):
         p.join(5)
         if p.is_alive():
             p.terminate()
+            p.join(5)
+            if p.is_alive():
+                p.kill()
     return res, err
 
 
@@ -114,6 +117,11 @@ def crosscheck(ctx, cfg, sched_seed=0):
     """returns list of differences between the real-gloo run and the simdist run of cfg"""
     rr = kfacsim.run_real(cfg, sched_seed=sched_seed)
     gres, gerr = run_gloo(cfg)
+    if gerr and 'timeout' in gerr and not kfacsim.run_failed(rr):
+        # a wall-clock timeout on a loaded machine is not a hang: run the processes again with a long limit; only a
+        # run that still does not finish is reported (a real deadlock the simulator does not exhibit)
+        ctx.count('gloo-retry-after-timeout')
+        gres, gerr = run_gloo(cfg, timeout=900)
     diffs = []
     sfail = kfacsim.run_failed(rr)
     if gerr or sfail:
